@@ -312,8 +312,34 @@ def isR(R, tol=100):
 
     :seealso: isrot2, isrot
     """
+    R = _realmatrix(R)
+    if R is None:
+        return False
     return np.linalg.norm(R@R.T - np.eye(R.shape[0])) < tol * _eps \
         and np.linalg.det(R) > 0
+
+
+def _realmatrix(M):
+    """
+    Matrix in a form fit for a membership test
+
+    :param M: matrix to test
+    :type M: ndarray
+    :return: the matrix with real floating point elements, or None if it has a
+        non-zero imaginary part
+    :rtype: ndarray or None
+
+    Integer products and sums wrap around silently (for ``int8`` 127*127 is 1,
+    for ``uint8`` 1+255 is 0) and a complex orthogonal matrix satisfies
+    :math:`{\bf R} {\bf R}^T = {\bf I}` without being a rotation, so the
+    tests are made on real floating point values.
+    """
+    M = np.asarray(M)
+    if M.dtype.kind in 'iub':
+        return M.astype(np.float64)
+    if M.dtype.kind == 'c':
+        return M.real if np.all(M.imag == 0) else None
+    return M
 
 
 def isskew(S, tol=10):
@@ -340,6 +366,9 @@ def isskew(S, tol=10):
 
     :seealso: isskewa
     """
+    S = _realmatrix(S)
+    if S is None:
+        return False
     return np.linalg.norm(S + S.T) < tol * _eps
 
 
@@ -368,6 +397,9 @@ def isskewa(S, tol=10):
 
     :seealso: isskew
     """
+    S = _realmatrix(S)
+    if S is None:
+        return False
     return np.linalg.norm(S[0:-1, 0:-1] + S[0:-1, 0:-1].T) < tol * _eps \
         and np.all(S[-1, :] == 0)
 
